@@ -61,7 +61,19 @@ impl<A: Allocator> H<A> {
 fn run_driver<A: ArenaX + Clone>(d: &Value, out: &mut impl Write, workdir: &str) {
   let cfg = &d["cfg"];
   let backend = cfg["backend"].as_str().unwrap_or("vec");
-  let (arena, file) = match build::<A>(cfg, backend, workdir) {
+  // read-only arenas: the file is created writable, closed, and opened again with map / map_copy_read_only
+  let built = if backend == "file_ro" || backend == "file_cro" {
+    build::<A>(cfg, "file", workdir).and_then(|(a, path)| {
+      drop(a);
+      let p = path.clone().expect("file path");
+      let o = crate::seq::options_of(cfg).with_read(true);
+      let r = unsafe { if backend == "file_ro" { o.map::<A, _>(&p) } else { o.map_copy_read_only::<A, _>(&p) } };
+      r.map(|a| (a, path)).map_err(|e| format!("{e:?}"))
+    })
+  } else {
+    build::<A>(cfg, backend, workdir)
+  };
+  let (arena, file) = match built {
     Ok(x) => x,
     Err(e) => {
       writeln!(out, "{}", json!({"ev": "reset", "id": d["id"], "backend": backend, "ok": false, "err": e})).unwrap();
